@@ -112,6 +112,14 @@ func init() {
 				}
 				p.Config.Services[0].MaxMsg = uint32(largest + 64)
 			}
+			if p != nil && !enveloped(p.RPCs[0].Client.Form) && p.RPCs[0].Client.Compression == "" && len(p.RPCs[0].Client.Msgs) == 1 && c.Prob(0.15) {
+				// a limit exactly one byte under the request body: whether that byte is too much must not depend on how the end
+				// of the body is told (with the last bytes, or by a read of its own) or on how the body is cut
+				if n := sizeUnderRef(p.RPCs[0].Client.Codec, p.RPCs[0].Client.Msgs[0].Data); n > 1 {
+					p.Config.Services[0].MaxMsg = uint32(n - 1)
+					p.RPCs[0].Client.DeclareCL = Pick(c, "none", "none", "")
+				}
+			}
 			return p
 		},
 		// thorough: on the small corpus of C09 (every adapter path, one or two messages each way, plus a variant of each
